@@ -177,11 +177,11 @@ def run_space(prop, tier, crash_owners):
     return cov, viols, inc
 
 
-def run_engine(prop, tier, cfgs, hist_quick, hist_thorough, ops=60, extra_args=(), crash_owners=("C03", "C02"), any_prop=False):
+def run_engine(prop, tier, cfgs, hist_quick, hist_thorough, ops=60, extra_args=(), crash_owners=("C03", "C02"), any_prop=False, min_chunk=10):
     bins = core.build_many([c.spec() for c in cfgs])
     nh = hist_quick if tier == "quick" else hist_thorough
     k = max(1, round(2.0 * core.NCPU / len(cfgs)))
-    chunk = max(10, -(-nh // k))
+    chunk = max(min_chunk, -(-nh // k))
     jobs = []
     for c in cfgs:
         lo = 0
@@ -342,6 +342,9 @@ class SimpleCfg:
         return {"name": self.name, "source": self.source(), "std": self.std, "compiler": self.compiler, "extra": self.extra, "san": self.san, "opt": self.opt}
 
 
+GROWTH_HUGE = [SimpleCfg("grhuge", "vec_growth_huge_main.cpp", "c++17", extra=["-DAMC_NONSTD_FEATURES"])]
+GROWTH_HUGE_THOROUGH = [SimpleCfg("grhuge", "vec_growth_huge_main.cpp", "c++11", extra=["-DAMC_NONSTD_FEATURES"]),
+                        SimpleCfg("grhuge", "vec_growth_huge_main.cpp", "c++20", compiler="clang++-14", extra=["-DAMC_NONSTD_FEATURES"])]
 REALLOC_DIRECT = [SimpleCfg("rd", "realloc_direct_main.cpp", "c++17"), SimpleCfg("rd", "realloc_direct_main.cpp", "c++11")]
 ALGO_QUICK = [SimpleCfg("ma", "mem_algos_main.cpp", s) for s in ("c++11", "c++14", "c++17", "c++20")]
 ALGO_THOROUGH = [SimpleCfg("ma", "mem_algos_main.cpp", s, "clang++-14") for s in ("c++11", "c++14", "c++17", "c++20")]
